@@ -66,7 +66,7 @@ func (f *Describe) Call(s *slip.Scope, args slip.List, depth int) (result slip.O
 		}
 	}
 	ansi := s.Get("*print-ansi*") != nil
-	right := int(s.Get("*print-right-margin*").(slip.Fixnum))
+	right := slip.RightMarginValue(s.Get("*print-right-margin*"), slip.DefaultRightMargin)
 
 	b := AppendDescribe(nil, obj, s, 0, right, ansi)
 	if _, err := w.Write(b); err != nil {
